@@ -144,7 +144,10 @@ class KrylovBased:
         )
         if self.E_shift is not None:
             if isinstance(self.H, OrthogonalNpcLinearOperator):
-                self.H.orig_operator = ShiftNpcLinearOperator(self.H.orig_operator, self.E_shift)
+                # new wrapper: don't modify the operator given by the caller (it might be used again)
+                self.H = OrthogonalNpcLinearOperator(
+                    ShiftNpcLinearOperator(self.H.orig_operator, self.E_shift), self.H.ortho_vecs
+                )
             else:
                 self.H = ShiftNpcLinearOperator(self.H, self.E_shift)
         self._cache = []
